@@ -261,6 +261,31 @@ def body(chk):
                     if ka not in ("x",) and kb not in ("x",) and not (ka == "I" and kb == "I"):
                         coq_case(op, "f", VA, VB, out, site, replay)
 
+    # ---- D: the mixed-kind helper of pba/operation.py (i_mul: the independent product of any two constructs, used by the vector / matrix
+    # products): same p-box as converting both operands first and multiplying under independence
+    from pyuncertainnumber.pba import operation as OPM
+    for _ in range(1 if chk.tier == "quick" else 6):
+        for ka in KINDS:
+            for kb in KINDS:
+                if "x" in (ka, kb):
+                    continue
+                oa, ob = gen_operand(rng, ka), gen_operand(rng, kb)
+                A, B = build(oa), build(ob)
+                out = run(lambda: OPM.i_mul(A, B))
+                ref = run(lambda: convert_pbox(A).mul(convert_pbox(B), dependency="i"))
+                site = f"helper:i_mul:{ka}-{kb}"
+                chk.count(f"i_mul-{ka}-{kb}", key=(str(oa), str(ob), "i_mul"))
+                replay = {"kind": "oracle", "a": oa, "b": ob, "function": "pba.operation.i_mul", "observed": out[:1] + out[3:] if out[0] == "ok" else out}
+                if ref[0] != out[0]:
+                    chk.report(site, f"i_mul({ka}, {kb}) {'fails (' + out[2] + ')' if out[0] != 'ok' else 'gives a value'} but the independent product of the converted operands "
+                               f"{'fails' if ref[0] != 'ok' else 'gives a value'}", replay)
+                elif out[0] == "ok" and not (all(close(x, r, 16) for x, r in zip(out[1], ref[1])) and all(close(x, r, 16) for x, r in zip(out[2], ref[2]))):
+                    k = next(i for i in range(len(ref[1])) if not (close(out[1][i], ref[1][i], 16) and close(out[2][i], ref[2][i], 16)))
+                    chk.report(site, f"i_mul({ka}, {kb}) differs from the independent product of the converted operands: step {k} is [{out[1][k]}, {out[2][k]}] "
+                               f"instead of [{ref[1][k]}, {ref[2][k]}]", replay)
+                elif out[0] == "ok":
+                    coq_case("Mul", "i", view(A), view(B), out, site, replay)
+
     chunks = []
     CH = 8
     for s in range(0, len(items), CH):
